@@ -408,7 +408,7 @@ def gen_pw_cases(rng, count):
     cases = []
 
     def table():
-        k = rng.randint(2, 12)
+        k = rng.choice([rng.randint(2, 12), rng.randint(2, 12), rng.randint(9, 40)])
         xs = [rng.choice([dyadic(rng, -50, 50, 3), rng.uniform(-1e3, 1e3), 0.0])]
         for _ in range(k - 1):
             xs.append(xs[-1] + rng.choice([dyadic(rng, 0.125, 8, 3), rng.uniform(1e-3, 100.0)]))
@@ -462,6 +462,62 @@ def gen_pw_cases(rng, count):
             kind = 'inside'
         cases.append(dict(xs=xs, ys=ys, q=q, kind=kind))
     return cases
+
+
+def gen_pw_sweeps(rng, ntables):
+    """whole-table sweeps: tables of 2..40 knots, a query exactly on EVERY knot (first, interior, last) and inside EVERY
+    segment (including the last one), just inside / outside both ends, NaN.  A quarter of the tables repeat a knot
+    (a step in the curve; outside the property's quantifier, compared model-vs-code and across storage layouts)."""
+    cases = []
+    lengths = [2, 3, 8, 9, 10, 17, 33, 40]
+    for ti in range(ntables):
+        k = lengths[ti] if ti < len(lengths) else rng.randint(2, 40)
+        xs = [rng.choice([dyadic(rng, -50, 50, 3), rng.uniform(-1e3, 1e3), 0.0])]
+        for _ in range(k - 1):
+            xs.append(xs[-1] + rng.choice([dyadic(rng, 0.125, 8, 3), dyadic(rng, 0.125, 8, 3), rng.uniform(1e-3, 100.0)]))
+        ys = [rng.choice([dyadic(rng, -20, 20, 3), rng.uniform(-1e4, 1e4)]) for _ in range(k)]
+        repeated = k >= 3 and rng.random() < 0.25
+        if repeated:
+            for _ in range(rng.randint(1, 2)):
+                i = rng.randrange(0, k - 1)
+                xs[i + 1] = xs[i]
+            xs.sort()
+        qs = [(x, 'knot') for x in xs]
+        for i in range(k - 1):
+            if xs[i] < xs[i + 1]:
+                q = rng.choice([xs[i] + (xs[i + 1] - xs[i]) * 0.5, xs[i] + (xs[i + 1] - xs[i]) * rng.random()])
+                qs.append((min(max(q, xs[i]), xs[i + 1]), 'inside'))
+        qs += [(math.nextafter(xs[0], INF), 'inside'), (math.nextafter(xs[-1], -INF), 'inside'),
+               (math.nextafter(xs[0], -INF), 'outside'), (math.nextafter(xs[-1], INF), 'outside'), (NAN, 'nan')]
+        for q, kind in qs:
+            cases.append(dict(xs=xs, ys=ys, q=q, kind='duplicate' if repeated else kind, sweep=ti))
+    return cases
+
+
+def gen_layout(rng, n):
+    """how a caller stores a table (see PWLAY in harness/cmd/owrun/c18.go)"""
+    b = rng.choice(['G', 'G', 'C'])
+    kind = rng.choice(['COL', 'COL', 'COL', 'COLR', 'COL2', 'COLSTR', 'STR', 'STR2', 'P'])
+    if kind == 'P' or n == 0:
+        return 'P'
+    nsets = rng.choice([1, 2, 3, 3, 5])
+    st = rng.randrange(nsets)
+    if kind == 'COL':
+        return 'COL %s %d %d %d 1' % (b, nsets, st, rng.choice([0, 0, 2, 7]))
+    if kind == 'COLR':
+        return 'COL %s %d %d %d 0' % (b, nsets, st, rng.choice([0, 3]))
+    if kind == 'COL2':
+        return 'COL2 %s %d %d %d %d' % (b, nsets, st, rng.choice([0, 1, 4]), rng.choice([0, 2]))
+    if kind == 'COLSTR':
+        return 'COLSTR %s %d %d %d' % (b, nsets, st, rng.choice([1, 2, 3]))
+    if kind == 'STR':
+        return 'STR %s %d %d %d' % (b, rng.choice([0, 1, 5]), rng.choice([1, 2, 3, 7]), rng.choice([0, 2]))
+    return 'STR2 %s %d %d %d %d' % (b, rng.choice([0, 2]), rng.choice([2, 3]), rng.choice([0, 1]), rng.choice([2, 3]))
+
+
+def pwlay_line(cs, xlay, ylay):
+    return 'PWLAY %s %s %d %s %s %s' % (xlay, ylay, len(cs['xs']), ' '.join(f2h(v) for v in cs['xs']),
+                                        ' '.join(f2h(v) for v in cs['ys']), f2h(cs['q']))
 
 
 def pw_line(cs):
@@ -680,11 +736,16 @@ def replay(path):
     build_driver(['c18'])
     build_harness(['owrun'])
     li = run_impl([line])[0]
-    lm = run_model([line])[0]
+    lm = run_model([obj['plain_line'] if line.startswith('PWLAY') else line])[0]
     print('case :', line)
     print('impl :', li[:3000])
     print('model:', lm[:3000])
-    if line.startswith('NEST'):
+    if line.startswith('PWLAY'):
+        plain = run_impl([obj['plain_line']])[0]
+        print('impl with plain arrays:', plain)
+        cs = dict(xs=obj['xs'], ys=obj['ys'], q=float(obj['query']), kind=obj.get('query_kind', 'inside'))
+        fails = pw_oracle(cs, li) + ([('result-depends-on-table-storage', None, '%s vs %s' % (li, plain))] if li != plain else [])
+    elif line.startswith('NEST'):
         levels = [dict(f=fn_from(l['function']), d=fn_from(l['derivative']), **{k: l[k] for k in ('x0', 'a', 'b', 'tol', 'conv', 'n', 's', 't')})
                   for l in obj['levels']]
         acts = parse_nest(li)
@@ -736,11 +797,15 @@ def main():
     rng = c.rng
     rcases = gen_root_cases(rng, 1500 if quick else 40000)
     pcases = gen_pw_cases(rng, 800 if quick else 20000)
+    sweeps = gen_pw_sweeps(rng, 14 if quick else 300)
+    pcases = pcases + sweeps
     rlines = [root_line(cs) for cs in rcases]
     plines = [pw_line(cs) for cs in pcases]
     impl = run_impl(rlines + plines)
     model = run_model(rlines + plines)
-    stats = {'root_cases': len(rcases), 'piecewise_cases': len(pcases), 'root_valid_oracle_cases': 0, 'root_monotone_cases': 0,
+    stats = {'root_cases': len(rcases), 'piecewise_cases': len(pcases), 'piecewise_sweep_tables': len(set(cs['sweep'] for cs in sweeps)),
+             'piecewise_sweep_queries': len(sweeps), 'piecewise_max_table_length': max(len(cs['xs']) for cs in pcases),
+             'piecewise_repeated_knot_queries': sum(1 for cs in pcases if cs['kind'] == 'duplicate'), 'root_valid_oracle_cases': 0, 'root_monotone_cases': 0,
              'root_with_derivative': 0, 'root_returned_within_tol': 0, 'root_budget_clause_applicable': 0,
              'root_fn_evaluations_total': 0, 'root_panics_both_sides': 0, 'piecewise_errors': 0, 'piecewise_values': 0,
              'piecewise_nan_or_inf_queries': 0, 'families': {}, 'known_finding_cases': {}, 'root_mismatches': 0}
@@ -800,6 +865,30 @@ def main():
                                                             'query_kind': cs['kind'], 'impl': li, 'model': lm, 'case_line': plines[j]}, key=key)
         if j % 211 == 0:
             c.sample({'xs': cs['xs'], 'ys': cs['ys'], 'query': repr(cs['q']), 'result': li}, limit=6)
+    # ---- Piecewise must not care how a table is stored: the same tables as columns of parameter blocks (cut the way the
+    #      generated wrappers do), reshaped columns, strided and doubly sliced views, Go- and C-backed
+    lcases = [(j, cs, gen_layout(rng, len(cs['xs'])), gen_layout(rng, len(cs['xs'])))
+              for j, cs in enumerate(pcases) for _ in range(1 if quick else 2) if len(cs['xs']) >= 1]
+    llines = [pwlay_line(cs, xl, yl) for (_, cs, xl, yl) in lcases]
+    limpl = run_impl(llines)
+    stats.update(piecewise_layout_cases=len(lcases), piecewise_layout_kinds={}, piecewise_layout_mismatches=0)
+    for i, ((j, cs, xl, yl), lo) in enumerate(zip(lcases, limpl)):
+        plain = impl[off + j]
+        for l in (xl, yl):
+            kd = l.split()[0] + ('' if l == 'P' else '-' + l.split()[1]) + ('-reshaped' if l.startswith('COL ') and l.endswith(' 0') else '')
+            stats['piecewise_layout_kinds'][kd] = stats['piecewise_layout_kinds'].get(kd, 0) + 1
+        c.count(llines[i], nontrivial=(xl != 'P' or yl != 'P') and lo.startswith('OK'))
+        rep = {'xs': cs['xs'], 'ys': cs['ys'], 'query': repr(cs['q']), 'query_kind': cs['kind'], 'x_layout': xl, 'y_layout': yl,
+               'impl': lo, 'impl_plain_arrays': plain, 'model': model[off + j], 'plain_line': plines[j], 'case_line': llines[i]}
+        if lo != plain:
+            stats['piecewise_layout_mismatches'] += 1
+            c.violation('pwlay_%d_depends-on-table-storage.json' % i, dict(
+                rep, kind='result-depends-on-table-storage',
+                detail='xs stored as [%s], ys as [%s]: %s ; the same tables as plain arrays: %s' % (xl, yl, lo, plain)))
+        for (kind, key, detail) in pw_oracle(cs, lo):
+            c.violation('pwlay_%d_%s.json' % (i, kind), dict(rep, kind=kind, detail=detail + ' (xs stored as [%s], ys as [%s])' % (xl, yl)), key=key)
+        if i % 397 == 0:
+            c.sample({'table_length': len(cs['xs']), 'x_layout': xl, 'y_layout': yl, 'query': repr(cs['q']), 'result': lo}, limit=8)
     # ---- re-entrancy: nested solves (1 and 2 levels of FindRoot inside the residual)
     def lvdesc(lv):
         return dict(function=lv['f'].describe(), derivative=lv['d'].describe() if lv['d'] else None,
@@ -880,7 +969,11 @@ def main():
                      'and the complete sequences of fn and fn_dx evaluation points. Non-trivial ROOT case = a run with at least 6 fn evaluations (past '
                      'the first trial pair). Piecewise: strictly increasing tables of length 2-12 (dyadic and random), queries at knots, inside, '
                      'midpoints, one ulp inside/outside the ends, outside, +-Inf, NaN; plus empty/single/duplicate/unsorted tables compared '
-                     'model-vs-code only. Non-trivial PIECEWISE case = a value returned for a query between two knots. Re-entrancy: NEST = residuals that '
+                     'model-vs-code only; whole-table sweeps (2-40 knots; a query on every knot, inside every segment including the last, one ulp inside/outside '
+                     'the ends, NaN; a quarter with a repeated knot); every case once more with xs and ys stored as callers store them (column of a '
+                     '[npts+pad, nSets] block cut with the short-size Slice of the generated wrappers, reshaped column, column of a row range, '
+                     'stepped column, strided and twice-stepped 1-d views; Go- and C-backed; buffers filled by position) and compared with the '
+                     'plain-array answer. Non-trivial PIECEWISE case = a value returned for a query between two knots. Re-entrancy: NEST = residuals that '
                      'themselves call FindRoot 1 and 2 levels deep (monotone levels on far-apart brackets, with/without derivative, some looking tables up '
                      'through Piecewise), every activation of every level compared with the model run of that activation on its own and checked against '
                      'the interval/value clauses (non-trivial = at least 4 activations); PAR = 20-30 solves and lookups of the single-call streams run '
@@ -893,7 +986,7 @@ def main():
                           'evaluation-sequence comparison tests); re-entrancy of the Go code (nested and concurrent activations), which the pure model '
                           'has by construction, is tested by the NEST and PAR streams, not proved',
                           'OCaml libm stands in for Go math.Pow in the k*x^m-c family (rtol 1e-9)',
-                          'Piecewise is exercised on contiguous 1-D arrays built with data.NewArray1DFloat64 (strided views are C01 territory)'])
+                          'the storage-layout stream shows Piecewise independent of the table layouts listed in the rule; the data package itself is C01-C03 territory'])
 
 
 if __name__ == '__main__':
